@@ -310,7 +310,7 @@ def run(chk):
         "variants Ping -> Pong with the same payload, Close -> Close + ConnectionClosed, Pong -> nothing, control frames are not collected, payloads are "
         "concatenated in order, text flag from the first fragment; closed is set on ConnectionClosed and Drop sends Close unless closed; blocking and "
         "non-blocking twins agree; the non-blocking header read uses the count it got (C03 PARTIALREAD).")
-    chk.not_decided = "timing of non-blocking receive; SHA-1 compression / Base64 bit shuffling (C18; only the SHA-1 padding arithmetic is decided here, for every key length); interleavings of control frames beyond the per-frame rule"
+    chk.not_decided = "timing of non-blocking receive; std word operations inside SHA-1 (the structure of SHA-1 and the Base64 encoder are decided here by the C18 rules, for every key); interleavings of control frames beyond the per-frame rule"
     chk.assumptions = ["rustc type checking / MIR construction / callee resolution"]
     sinks(chk, prog)
     handshake(chk, prog)
@@ -326,6 +326,12 @@ def run(chk):
     blocking_mode_restored(chk, prog)
     from . import c18
     c18.sha1_padding(chk, prog, rule="R1.accept_sha1_padding")
+    import json as _json
+    import os as _os
+    with open(_os.path.join(c18.ORACLES, "constants.json")) as fh:
+        orc = _json.load(fh)
+    c18.sha1_structure(chk, prog, orc, rule="R1.accept_sha1")
+    c18.base64_encoder_bits(chk, prog, rule="R1.accept_base64")
     from . import c03
     bodies = panics.reach(prog, ["humphrey_ws::frame::Frame::from_stream_nonblocking"])
     before = len(chk.obligations)
